@@ -59,7 +59,58 @@ type snap struct {
 	copy any
 }
 
+// remuxIndependenceCase: a remultiplexer (cmd/astits-es-split) hands what one Demuxer returned — the parsed PES and the first
+// packet's parsed adaptation field — to Muxers, which write into those objects (WriteData manages the field's StuffingLength, the
+// tool itself sets a PCR). That is the application's business with ITS objects; another Demuxer reading the same bytes afterwards
+// must still return what a Demuxer returns for them when nothing else has happened in the process.
+func remuxIndependenceCase(c *mon.Ctx, idx int64, r *rand.Rand) {
+	m := gen.RandomModel(r, gen.ModelOpts{MaxPES: 3, MaxPMT: 1, MaxSI: 1, MaxUnits: 10, MaxPESLen: 600, SmallUnits: idx%2 == 0, RichAF: idx%3 == 0})
+	in := m.Build(r).Bytes
+	before := RunDemux(in, baseCfg("data"))
+	if before.Panic != "" {
+		return
+	}
+	snap := mon.Clone(before.Items)
+	muxers := map[uint16]*astits.Muxer{}
+	n := 0
+	for _, it := range before.Items {
+		d := it.Data
+		if d == nil || d.PES == nil || d.FirstPacket == nil || d.PID < 0x20 || d.PID == 0x1000 || len(d.PES.Data) == 0 {
+			continue
+		}
+		mx := muxers[d.PID]
+		if mx == nil {
+			mx = astits.NewMuxer(context.Background(), io.Discard)
+			mx.AddElementaryStream(astits.PMTElementaryStream{ElementaryPID: d.PID, StreamType: astits.StreamTypePrivateData})
+			mx.SetPCRPID(d.PID)
+			muxers[d.PID] = mx
+		}
+		af := d.FirstPacket.AdaptationField
+		if af != nil && d.PES.Header.OptionalHeader != nil && d.PES.Header.OptionalHeader.PTS != nil && idx%2 == 1 {
+			af.HasPCR, af.PCR = true, d.PES.Header.OptionalHeader.PTS // as the tool does
+		}
+		mon.Guarded(func() { mx.WriteData(&astits.MuxerData{PID: d.PID, AdaptationField: af, PES: d.PES}) })
+		n++
+	}
+	after := RunDemux(in, baseCfg("data"))
+	c.Add("parsed_units_handed_to_muxers_between_two_demuxer_runs", int64(n))
+	if after.Panic != "" {
+		c.Violate("C16/remux/panic", "remux", idx, after.Panic, nil)
+		return
+	}
+	if d := itemsEqual(after.Items, snap); d != "" {
+		c.Violate("C16/remux/second-demuxer-disturbed-by-what-muxers-did-to-the-first-one's-results", "remux", idx, d, map[string]any{"stream": mon.Hex(in, 1500)})
+	}
+	c.Case(mon.HashBytes("remux", in), n > 0)
+}
+
 func runC16(c *mon.Ctx) {
+	nrx := c.Pick(200, 10000)
+	for i := int64(0); i < nrx; i++ {
+		if c.Mine("remux", i) {
+			remuxIndependenceCase(c, i, c.Rng("remux", i))
+		}
+	}
 	n := c.Pick(400, 25000)
 	for i := int64(0); i < n; i++ {
 		if !c.Mine("alias", i) {
